@@ -1192,8 +1192,9 @@ def generated_time_checks(idx: Index, res: Result, rule: str) -> None:
         raise AnalysisError("generated memoize() not found in the Jinja template")
     mm = methods["memoize"]
     arg = [a.arg for a in mm.args.args][2]
+    from ..util import _written_out as _wo0
     normalised = [n for n in ast.walk(mm) if isinstance(n, ast.Assign) and arg in {x.id for x in ast.walk(n.value) if isinstance(x, ast.Name)}
-                  and any(isinstance(c, ast.Call) and call_name(c) in ("normalize", "round") for c in ast.walk(n.value))]
+                  and any(isinstance(c, ast.Call) and call_name(c) in ("normalize", "round") for c in ast.walk(_wo0(mm, n.value)))]
     keys = [n for n in ast.walk(mm) if isinstance(n, ast.Subscript) and isinstance(n.value, ast.Name) and n.value.id == "mymemo"]
     probe = [n for n in ast.walk(mm) if isinstance(n, ast.Compare) and isinstance(n.ops[0], ast.In) and "mymemo" in src(n.comparators[0])]
     if not keys or not probe:
@@ -1593,7 +1594,12 @@ def check_c04(idx: Index, tier: str, res: Result) -> None:
     for n in walk_no_nested(pe_.node):
         if isinstance(n, ast.Assign) and isinstance(n.targets[0], ast.Name) and isinstance(n.value, ast.Subscript) and const_str(n.value.slice) == "gf":
             gfvar = n.targets[0].id
-    if gfvar is None:
+    def is_gf(e) -> bool:
+        """the graphical-function record: a local bound to entity['gf'], or entity['gf'] itself"""
+        if isinstance(e, ast.Name):
+            return gfvar is not None and e.id == gfvar
+        return isinstance(e, ast.Subscript) and const_str(e.slice) == "gf"
+    if gfvar is None and not any(is_gf(x) for x in ast.walk(pe_.node)):
         raise AnalysisError("parse_entity: graphical-function block (entity['gf']) not found")
 
     def guards_of(target):
@@ -1612,9 +1618,8 @@ def check_c04(idx: Index, tier: str, res: Result) -> None:
                     return
         rec(pe_.node.body, [])
         return out
-    xread = [n for n in ast.walk(pe_.node) if isinstance(n, ast.Subscript) and isinstance(n.value, ast.Name) and n.value.id == gfvar and const_str(n.slice) == "xpts"
-             and isinstance(n.ctx, ast.Load)]
-    sread = [n for n in ast.walk(pe_.node) if isinstance(n, ast.Subscript) and isinstance(n.value, ast.Name) and n.value.id == gfvar and const_str(n.slice) == "xscale"]
+    xread = [n for n in ast.walk(pe_.node) if isinstance(n, ast.Subscript) and is_gf(n.value) and const_str(n.slice) == "xpts" and isinstance(n.ctx, ast.Load)]
+    sread = [n for n in ast.walk(pe_.node) if isinstance(n, ast.Subscript) and is_gf(n.value) and const_str(n.slice) == "xscale"]
     if not xread or not sread:
         raise AnalysisError("parse_entity: reads of gf['xpts'] / gf['xscale'] not found")
 
